@@ -264,6 +264,10 @@ class SmiV2Lexer(AbstractLexer):
             lineno=t.lineno)
         # t.lexer.skip(1)
 
+    # the MACRO skipping state has no catch-all rule: report a MACRO body that
+    # never reaches its END through the same error as any other bad input
+    t_macro_error = t_error
+
 
 class SupportSmiV1Keywords(object):
     @staticmethod
